@@ -53,6 +53,33 @@ func configProblems(doc *oapi.Doc, cfg synth.Config, version string) []oapi.Prob
 		if oapi.Str(g["type"]) != s.Type || oapi.Str(g["in"]) != s.In || oapi.Str(g["name"]) != s.FieldName || oapi.Str(g["scheme"]) != s.Scheme || oapi.Str(g["description"]) != s.Description {
 			add("config-security-schemes", fmt.Sprintf("scheme %s emitted as %v, configured %+v", s.Name, g, s))
 		}
+		if oapi.Str(g["openIdConnectUrl"]) != s.OpenIDConnectURL {
+			add("config-security-schemes", fmt.Sprintf("scheme %s openIdConnectUrl=%q, configured %q", s.Name, oapi.Str(g["openIdConnectUrl"]), s.OpenIDConnectURL))
+		}
+		flows := oapi.Obj(g["flows"])
+		if len(flows) != len(s.Flows) {
+			add("config-security-flows", fmt.Sprintf("scheme %s emits flows %v, configured %d flows", s.Name, keysOf(flows), len(s.Flows)))
+		}
+		for fn, f := range s.Flows {
+			gf := oapi.Obj(flows[fn])
+			if gf == nil {
+				add("config-security-flows", fmt.Sprintf("scheme %s: configured flow %s is missing", s.Name, fn))
+				continue
+			}
+			if oapi.Str(gf["authorizationUrl"]) != f.AuthorizationURL || oapi.Str(gf["tokenUrl"]) != f.TokenURL || oapi.Str(gf["refreshUrl"]) != f.RefreshURL {
+				add("config-security-flows", fmt.Sprintf("scheme %s flow %s urls emitted as %v, configured %+v", s.Name, fn, gf, *f))
+			}
+			gs := oapi.Obj(gf["scopes"])
+			same := len(gs) == len(f.Scopes)
+			for k, v := range f.Scopes {
+				if oapi.Str(gs[k]) != v {
+					same = false
+				}
+			}
+			if !same {
+				add("config-security-flows", fmt.Sprintf("scheme %s flow %s scopes emitted as %v, configured %v", s.Name, fn, gs, f.Scopes))
+			}
+		}
 	}
 	return out
 }
